@@ -38,6 +38,7 @@ def run(ctx):
         r.check('enabled', len(on) == 1 and on[0].effects[-1] == HT + 'HeartbeatTimers::start(self.heartbeats, std::time::Duration::from_secs(interval))', site, built=[x.row() for x in on],
                 why='the announced interval is in seconds')
         r.check('disabled-when-0', len(off) == 1 and not off[0].effects, site, built=[x.row() for x in off], why='h = 0: no timers, no heartbeats, silence never fatal')
+        A.include(ctx, r, 'c15', 'R15.3', pick=('timers', 'tune-row'))
         A.unique_callers(ctx, r, 'start_heartbeats:caller', 'io_loop::Inner::start_heartbeats', ['io_loop::handshake_state::HandshakeState::process'])
         rows = P.table(ctx, HT + 'HeartbeatTimers::start', ['self', 'interval'])
         r.check('timers-armed-with-interval', len(rows) == 1 and 'self.heartbeats = Some(%sRxTxHeartbeat::new(self.timer, interval))' % HT in rows[0].effects, ctx.site(HT + 'HeartbeatTimers::start'), built=[x.effects for x in rows])
